@@ -123,8 +123,44 @@ def _verify_one(q):
     except Exception as e:     # noqa
         import traceback
         return ("error", traceback.format_exc()[-1500:])
-    r.obligations = [prepare(o) for o in r.obligations if selected(o)]
+    obls = [o for o in r.obligations if selected(o)]
+    r.obligations = _prepare_parallel(obls, prepare)
     return ("ok", r)
+
+
+def _prepare_parallel(obls, prepare):
+    """serialise the obligations of one (large) function in several forked children: the z3 terms live in this process and are
+    inherited by fork; each child turns a slice into SMT-LIB text and sends the picklable records back through a pipe"""
+    import pickle
+    nchild = min(6, len(obls) // 40)
+    if nchild < 2:
+        return [prepare(o) for o in obls]
+    slices = [list(range(i, len(obls), nchild)) for i in range(nchild)]
+    pipes = []
+    for sl in slices:
+        rfd, wfd = os.pipe()
+        pid = os.fork()
+        if pid == 0:
+            try:
+                os.close(rfd)
+                data = pickle.dumps([(i, prepare(obls[i])) for i in sl])
+                with os.fdopen(wfd, "wb") as f:
+                    f.write(data)
+            finally:
+                os._exit(0)
+        os.close(wfd)
+        pipes.append((pid, rfd))
+    out = [None] * len(obls)
+    for pid, rfd in pipes:
+        with os.fdopen(rfd, "rb") as f:
+            data = f.read()
+        os.waitpid(pid, 0)
+        for i, rec in pickle.loads(data):
+            out[i] = rec
+    for i, rec in enumerate(out):
+        if rec is None:                  # a child died: do it here
+            out[i] = prepare(obls[i])
+    return out
 
 
 def run(pid, P, a, seed, t0):
